@@ -46,6 +46,12 @@ def run(c):
         # `bytes_variant_canonical` stated on the implementation: a white-listed root's []byte variant re-encodes every accepted
         # input byte for byte (dictionaries included); its decidable hypotheses (closed, no `bit`) are the T3 certificate below
         wl = [w for w in sc.bytes_wl.split(",") if w]
+        # T3: the decidable hypotheses of `bytes_variant_canonical` (reference-closed reach set, no `bit` primitive in it),
+        # evaluated by the model on the descriptor the current kernel exported; the oracle below is applied where they hold
+        certs = cc.certificates(c, model, sc)
+        guard = {idx: (r["closed"] and r["nobit"]) for idx, r in certs.items()}
+        c.count("bytes_variant_canonical guard (closed, no bit) holds for factory items", sum(1 for v in guard.values() if v))
+        c.count("bytes_variant_canonical guard fails for factory items", sum(1 for v in guard.values() if not v))
         for l, a, _ in res_sl:
             f = l.split(" ")
             if not a.startswith("ok ") or not any((f[3].startswith(w) if w.endswith(".") else f[3] == w) for w in wl):
@@ -54,7 +60,7 @@ def run(c):
             o = cc.outputs(a)
             w = o.get("w1b" if f[4] == "1" else "w1")
             c.count("[]byte variant: accepted inputs checked for byte-exact re-encoding")
-            if w in (None, "n/a"):
+            if w in (None, "n/a") or not guard.get(int(f[2]), False):
                 continue
             if ("" if w == "-" else w) != ("" if f[5] == "-" else f[5])[:2 * n]:
                 c.oracle_fail(l, "[]byte variant accepted %d bytes but re-encodes them differently: %s" % (n, str(w)[:80]), l)
